@@ -1,7 +1,7 @@
 P('C02', shards=16, race=True,
   passes=[{'race': True}, {'race': True, 'env': {'GOMAXPROCS': 2}, 'tiers': ['thorough']}, {'race': True, 'env': {'GOMAXPROCS': 1}, 'tiers': ['thorough']}, {'race': True, 'env': {'GOMAXPROCS': 4}, 'tiers': ['thorough']}],
   technique='property-based concurrency testing (rapid-generated multi-goroutine logging scripts against a monitoring destination that owns the Write window) + metamorphic oracle "logged concurrently == logged alone", under the race detector with a GOMAXPROCS sweep',
-  text='Generated scenarios (handler kind x threshold x colour x addSource; 2..8 goroutines logging through the root logger, pre-derived shared loggers and loggers derived during the run; line sizes up to 70 KiB) write into a destination that yields/spins inside Write '
+  text='Generated scenarios (handler kind x threshold x colour x addSource; 2..8 goroutines logging through the root logger, up to five pre-derived shared loggers (each one to three derivation steps below another, so nested groups and attributes below groups are common) and loggers derived during the run; line sizes up to 70 KiB) write into a destination that yields/spins inside Write '
        'and monitors an in-flight counter and payload stability. Afterwards: Write count = enabled records, every payload carries exactly one record id, every enabled id exactly once, no disabled id, and each payload equals (time masked) the same record logged alone '
        'through a fresh handler with the same chain. Runs under -race; thorough sweeps GOMAXPROCS 1/2/4/16. Exploration of sampled schedules, not proof.',
   note='Schedules are produced by the real Go scheduler (amplified by the yielding destination), so interleavings are sampled, not enumerated; faithfulness of the line itself is C01/C13.',
